@@ -437,142 +437,6 @@ end Sbepp.Gen.Scope
 namespace Sbepp.Gen.Scope
 open Sbepp Sbepp.Schema
 
-/-! ### `size_bytes` parameter names -/
-
-mutual
-  /-- the names `get_group_size_bytes_params` asks for, before `make_unique_param_name` -/
-  def msgGroupDesired (path : List String) : GroupDef → List String
-    | .mk n _ _ _ _ groups _ _ =>
-      (joinPath (path ++ [n]) ++ "_num_in_group") :: msgGroupsDesired (path ++ [n]) groups
-  def msgGroupsDesired (path : List String) : List GroupDef → List String
-    | [] => []
-    | g :: gs => msgGroupDesired path g ++ msgGroupsDesired path gs
-end
-
-theorem uniqueParam_fresh (d : String) (names : List String) (depth : Nat) (h : d ∉ names) :
-    uniqueParam d names depth = d := by
-  simp [uniqueParam, h]
-
-mutual
-  theorem msgGroupParams_desired (path names : List String) (g : GroupDef)
-      (h : (names ++ msgGroupDesired path g).Nodup) :
-      msgGroupParams path names g = names ++ msgGroupDesired path g := by
-    match g with
-    | .mk n _ _ _ _ groups _ _ =>
-      simp only [msgGroupDesired] at h ⊢
-      simp only [msgGroupParams]
-      have hd : (joinPath (path ++ [n]) ++ "_num_in_group") ∉ names := by
-        have := List.nodup_append.mp h
-        intro hmem
-        exact this.2.2 _ hmem _ (List.mem_cons_self) rfl
-      rw [uniqueParam_fresh _ _ _ hd]
-      have h' : ((names ++ [joinPath (path ++ [n]) ++ "_num_in_group"]) ++ msgGroupsDesired (path ++ [n]) groups).Nodup := by
-        simpa [List.append_assoc] using h
-      rw [msgGroupsParams_desired (path ++ [n]) _ groups h']
-      simp [List.append_assoc]
-  theorem msgGroupsParams_desired (path names : List String) (gs : List GroupDef)
-      (h : (names ++ msgGroupsDesired path gs).Nodup) :
-      msgGroupsParams path names gs = names ++ msgGroupsDesired path gs := by
-    match gs with
-    | [] => simp [msgGroupsParams, msgGroupsDesired]
-    | g :: gs' =>
-      simp only [msgGroupsDesired] at h ⊢
-      simp only [msgGroupsParams]
-      have h1 : (names ++ msgGroupDesired path g).Nodup := by
-        rw [← List.append_assoc] at h
-        exact (List.nodup_append.mp h).1
-      rw [msgGroupParams_desired path names g h1]
-      have h2 : ((names ++ msgGroupDesired path g) ++ msgGroupsDesired path gs').Nodup := by
-        simpa [List.append_assoc] using h
-      rw [msgGroupsParams_desired path _ gs' h2]
-      simp [List.append_assoc]
-end
-
-/-- the parameter names the message-level `size_bytes` would have without uniquification -/
-def messageDesiredParams (m : MessageDef) : List String :=
-  msgGroupsDesired [] m.groups ++ (if !m.datas.isEmpty || groupsHaveData m.groups then ["total_data_size"] else [])
-
-theorem messageSizeParams_desired (m : MessageDef) (h : (messageDesiredParams m).Nodup) :
-    messageSizeParams m = messageDesiredParams m := by
-  unfold messageSizeParams messageDesiredParams at *
-  have h1 : ([] ++ msgGroupsDesired [] m.groups).Nodup := by
-    simpa using (List.nodup_append.mp h).1
-  rw [msgGroupsParams_desired [] [] m.groups h1]
-  simp
-
-end Sbepp.Gen.Scope
-
-namespace Sbepp.Gen.Scope
-open Sbepp Sbepp.Schema
-
-mutual
-  /-- the names `make_group_size_bytes_impl` asks for -/
-  def grpImplDesired (path : List String) : GroupDef → List String
-    | .mk _ _ _ _ _ groups _ _ =>
-      (if path.isEmpty then "num_in_group" else joinPath path ++ "_num_in_group") :: grpImplDesiredL path groups
-  def grpImplDesiredL (path : List String) : List GroupDef → List String
-    | [] => []
-    | g :: gs => grpImplDesired (path ++ [groupName g]) g ++ grpImplDesiredL path gs
-end
-
-mutual
-  theorem grpImplParams_desired (path names : List String) (g : GroupDef)
-      (h : (names ++ grpImplDesired path g).Nodup) :
-      grpImplParams path names g = names ++ grpImplDesired path g := by
-    match g with
-    | .mk _ _ _ _ _ groups _ _ =>
-      simp only [grpImplDesired] at h ⊢
-      simp only [grpImplParams]
-      by_cases hp : path.isEmpty = true
-      · simp only [hp, if_true] at h ⊢
-        have h' : ((names ++ ["num_in_group"]) ++ grpImplDesiredL path groups).Nodup := by
-          simpa [List.append_assoc] using h
-        rw [grpImplParamsL_desired path _ groups h']
-        simp [List.append_assoc]
-      · simp only [hp, Bool.false_eq_true, if_false] at h ⊢
-        have hd : (joinPath path ++ "_num_in_group") ∉ names := by
-          have := List.nodup_append.mp h
-          intro hmem
-          exact this.2.2 _ hmem _ (List.mem_cons_self) rfl
-        rw [uniqueParam_fresh _ _ _ hd]
-        have h' : ((names ++ [joinPath path ++ "_num_in_group"]) ++ grpImplDesiredL path groups).Nodup := by
-          simpa [List.append_assoc] using h
-        rw [grpImplParamsL_desired path _ groups h']
-        simp [List.append_assoc]
-  theorem grpImplParamsL_desired (path names : List String) (gs : List GroupDef)
-      (h : (names ++ grpImplDesiredL path gs).Nodup) :
-      grpImplParamsL path names gs = names ++ grpImplDesiredL path gs := by
-    match gs with
-    | [] => simp [grpImplParamsL, grpImplDesiredL]
-    | g :: gs' =>
-      simp only [grpImplDesiredL] at h ⊢
-      simp only [grpImplParamsL]
-      have h1 : (names ++ grpImplDesired (path ++ [groupName g]) g).Nodup := by
-        rw [← List.append_assoc] at h
-        exact (List.nodup_append.mp h).1
-      rw [grpImplParams_desired (path ++ [groupName g]) names g h1]
-      have h2 : ((names ++ grpImplDesired (path ++ [groupName g]) g) ++ grpImplDesiredL path gs').Nodup := by
-        simpa [List.append_assoc] using h
-      rw [grpImplParamsL_desired path _ gs' h2]
-      simp [List.append_assoc]
-end
-
-def groupDesiredParams (g : GroupDef) : List String :=
-  grpImplDesired [] g ++ (if groupHasData g then ["total_data_size"] else [])
-
-theorem groupSizeParams_desired (g : GroupDef) (h : (groupDesiredParams g).Nodup) :
-    groupSizeParams g = groupDesiredParams g := by
-  unfold groupSizeParams groupDesiredParams at *
-  have h1 : ([] ++ grpImplDesired [] g).Nodup := by
-    simpa using (List.nodup_append.mp h).1
-  rw [grpImplParams_desired [] [] g h1]
-  simp
-
-end Sbepp.Gen.Scope
-
-namespace Sbepp.Gen.Scope
-open Sbepp Sbepp.Schema
-
 /-! ### includes -/
 
 /-- a constant field whose value needs no file beyond those the generator records for it: always when
